@@ -67,6 +67,18 @@ CHECKS = {
              "the regular expression the function actually applies (captured at run time) to a z3 regex with Python semantics and two language-inclusion queries.",
         note="Trusted: interpreter, z3 (bit-vectors and the sequence/regex theory), the regex translation, the SD parser in props/c08.py. Leading-zero decimal forms are "
              "not exercised symbolically; near-miss strings of the statement are additionally replayed natively."),
+    "C06": dict(
+        text="DPAPINGBlob.pack/unpack with KeyIdentifier, ProtectionDescriptor and all _pkcs7 classes are executed on blob values whose key-identifier fields, root key id, "
+             "key_info/enc_cek/nonce and content boundary octets are solver variables (sizes listed across the DER length-form boundaries, both layouts); z3 proves the bytes "
+             "equal an independently written RFC 5652 / Windows-layout DER template (calibrated on the 16 real blobs), decode(encode(x)) == x and byte-identical re-encoding. "
+             "_encrypt_blob's GCM parameter construction is checked on its emitted blob.",
+        note="Trusted: interpreter, z3, the reference DER builder. Content lengths / key_info sizes not listed are outside the claim; acceptance by Windows itself is not decided."),
+    "C11": dict(
+        text="GroupKeyEnvelope, KeyIdentifier, KDFParameters, FFCDHParameters, FFCDHKey, ECDHKey and GetKey.pack/unpack/unpack_response are executed with every integer field "
+             "symbolic over its wire width (big integers over [0, 2^(8*key_length)), so all leading-zero values), byte fields of listed lengths with symbolic content and listed "
+             "names; z3 proves the bytes equal independent MS-GKDI / NDR64 reference encoders and decode(encode(x)) == x; the response decoder extracts the envelope for every "
+             "length residue mod 8 and raises for a failure HRESULT.",
+        note="Trusted: interpreter, z3, the reference encoders in props/refs.py. Byte-field lengths and names not listed are outside the claim."),
 }
 
 _PENDING = "check not built yet in this round (work in progress; see DESIGN.md for the plan)"
